@@ -70,7 +70,6 @@ func c10Table(ns *namedSet, r rune) *fw.Finding {
 // c10Derive: op1/op2 in {"set","clear",""} applied with bytes a, b to a named set.
 func c10Derive(ns *namedSet, op1 string, a uint, op2 string, b uint) *fw.Finding {
 	parent := ns.Get()
-	before := fingerprint(parent)
 	// The property only states that the parent is unaltered. For the derived set the oracle demands the
 	// uncontroversial part: Set(x) makes x a member, and neither operation changes any *other* code point;
 	// whether Clear(x) can remove a code point covered by the set's range rule is left open (skip[x]).
@@ -89,28 +88,27 @@ func c10Derive(ns *namedSet, op1 string, a uint, op2 string, b uint) *fw.Finding
 	}
 	subject := fmt.Sprintf("%s.%s(0x%02X).%s(0x%02X)", ns.Name, op1, a, op2, b)
 	var d1, d2 *url.PercentEncodeSet
-	var w1, w2 func(rune) bool
+	var w2 func(rune) bool
+	midChanged := false
 	if p := safely(func() {
+		var w1 func(rune) bool
 		d1, w1 = apply(parent, op1, a, want)
 		mid := fingerprint(d1)
 		d2, w2 = apply(d1, op2, b, w1)
-		if op2 != "" && fingerprint(d1) != mid {
-			panic("intermediate derived set altered by second derivation")
-		}
+		midChanged = op2 != "" && fingerprint(d1) != mid
 	}); p != "" {
-		if strings.HasPrefix(p, "intermediate") {
-			return fw.F("derive-alters-parent", subject, "%s: %s", subject, p)
-		}
 		return fw.F("panic", subject, "%s panicked: %s", subject, p)
 	}
-	if fingerprint(parent) != before {
-		return fw.F("derive-alters-parent", subject, "%s changed the membership table of the named set it was derived from", subject)
-	}
-	// the named parent must also still agree with the standard
-	for r := rune(0); r < 0x100; r++ {
+	// The named set the derivation started from must (still) be the standard's table. Stated against the
+	// standard rather than against a before-image, so that the verdict is the same however often the derivation
+	// has already been executed in this process (a mutating Set/Clear leaves the table altered for good).
+	for r := rune(0); r < 0x200; r++ {
 		if parent.RuneShouldBeEncoded(r) != ns.Pred(r) {
-			return fw.F("derive-alters-parent", subject, "%s: named set no longer matches the standard at U+%04X", subject, r)
+			return fw.F("derive-alters-parent", subject, "%s: the named set it was derived from does not (or no longer) match the standard's table at U+%04X: deriving a set must never alter the set it was derived from", subject, r)
 		}
+	}
+	if midChanged {
+		return fw.F("derive-alters-parent", subject, "%s: the intermediate derived set was altered by deriving a further set from it", subject)
 	}
 	for r := rune(0x20); r <= 0x7e; r++ {
 		if skip[r] {
